@@ -163,6 +163,7 @@ pub fn gen_world_cfg(s: &mut Src, prof: &Profile) -> WorldCfg {
             1 => 1 + s.below(36) as u8,
             _ => 255,
         },
+        peer_allowance: s.chance(1, 2),
     }
 }
 
@@ -363,7 +364,12 @@ pub fn gen_provide(w: &World, s: &mut Src, prof: &Profile) -> Step {
         .collect();
     let mut funds = funds_for(w, s, prof, &named, p);
     add_stray_coin(w, s, prof, p, actor.as_str(), &mut funds);
-    let receiver = if s.chance(2, 5) { Some(who(w, s)) } else { None };
+    let receiver = match s.weighted(&[18, 11, 1]) {
+        0 => None,
+        1 => Some(who(w, s)),
+        // the share goes to a contract of the pair's household: the pair itself, its LP token, the factory
+        _ => Some([w.pairs[p].addr.to_string(), w.pairs[p].lp.to_string(), w.factory.to_string()][s.idx(3)].clone()),
+    };
     Step {
         sender: actor.to_string(),
         call: Call::Pair { pair: p, msg: PairExec::ProvideLiquidity { assets, slippage_tolerance: opt_rate(s), receiver } },
@@ -381,6 +387,19 @@ pub fn gen_withdraw(w: &World, s: &mut Src, _prof: &Profile) -> Step {
     let holder = holders.iter().find(|h| w.cw20_balance(pr.lp.as_str(), h) > 0).cloned().unwrap_or_else(|| holders[0].clone());
     let bal = w.cw20_balance(pr.lp.as_str(), &holder);
     let amt = amount(s, bal);
+    // 1 time in 6 (worlds with peer allowances, holder an actor): the NEXT actor, to which the holder granted an
+    // allowance on the LP token, delivers the holder's LP tokens through `SendFrom` - and is the one paid
+    let go = s.chance(1, 6);
+    if go && w.cfg.peer_allowance {
+        if let Some(i) = w.actors.iter().position(|a| a.as_str() == holder) {
+            let spender = w.actors[(i + 1) % w.actors.len()].to_string();
+            return Step {
+                sender: spender,
+                call: Call::Cw20 { token: pr.lp.to_string(), msg: Cw20ExecuteMsg::SendFrom { owner: holder, contract: pr.addr.to_string(), amount: Uint128::new(amt), msg: to_binary(&PairHook::WithdrawLiquidity {}).unwrap() } },
+                funds: vec![],
+            };
+        }
+    }
     Step {
         sender: holder,
         call: Call::Cw20 { token: pr.lp.to_string(), msg: Cw20ExecuteMsg::Send { contract: pr.addr.to_string(), amount: Uint128::new(amt), msg: to_binary(&PairHook::WithdrawLiquidity {}).unwrap() } },
@@ -470,17 +489,44 @@ pub fn gen_swap_exec(w: &World, s: &mut Src, prof: &Profile) -> Step {
     };
     let mut funds = funds;
     add_stray_coin(w, s, prof, p, &actor, &mut funds);
-    let to = swap_receiver(w, s);
+    let to = swap_receiver(w, s, p);
     let (belief_price, max_spread) = guard_params(s);
     Step { sender: actor, call: Call::Pair { pair: p, msg: PairExec::Swap { offer_asset: offer, belief_price, max_spread, to } }, funds }
 }
 
+/// In worlds with peer allowances every actor may spend the balance of the actor BEFORE it in the cycle
+/// (which granted it an allowance on every asset and LP token): 1 time in 6 the hook is delivered through
+/// `SendFrom` out of that actor's balance. Returns the owner whose tokens are spent.
+fn spend_for(w: &World, s: &mut Src, actor: &str) -> Option<String> {
+    let go = s.chance(1, 6);
+    if !go || !w.cfg.peer_allowance {
+        return None;
+    }
+    let n = w.actors.len();
+    let i = w.actors.iter().position(|a| a.as_str() == actor)?;
+    Some(w.actors[(i + n - 1) % n].to_string())
+}
+
 /// the `to` of a direct or hook swap: absent, a user account, or (1 in 12) a string that is no valid address
 /// - too short, or the upper-case spelling of an account - which the pair must refuse, not silently replace
-fn swap_receiver(w: &World, s: &mut Src) -> Option<String> {
-    match s.weighted(&[7, 4, 1]) {
+fn swap_receiver(w: &World, s: &mut Src, p: usize) -> Option<String> {
+    match s.weighted(&[14, 8, 2, 1]) {
         0 => None,
         1 => Some(who(w, s)),
+        // a CONTRACT of the pair's own household as the designated receiver: the pair itself, its LP token or
+        // one of its cw20 asset contracts (a valid address like any other: the proceeds must go there)
+        3 => {
+            let pr = &w.pairs[p];
+            let mut c: Vec<String> = vec![pr.addr.to_string(), pr.lp.to_string()];
+            for i in &pr.infos {
+                if let AssetInfo::Token { contract_addr } = i {
+                    if w.tokens.iter().any(|t| t.addr.as_str() == contract_addr) {
+                        c.push(contract_addr.clone());
+                    }
+                }
+            }
+            Some(c[s.idx(c.len())].clone())
+        }
         _ => Some(match s.below(3) {
             0 => "ab".to_string(),
             1 => w.actors[s.idx(w.actors.len())].to_string().to_uppercase(),
@@ -524,6 +570,8 @@ pub fn gen_swap_hook(w: &World, s: &mut Src, prof: &Profile) -> Step {
     let pr = &w.pairs[p];
     let toks: Vec<usize> = (0..2).filter(|&i| !pr.infos[i].is_native_token()).collect();
     let actor = w.actors[s.idx(w.actors.len())].to_string();
+    let owner = spend_for(w, s, &actor);
+    let payer = owner.clone().unwrap_or_else(|| actor.clone());
     // the token that is actually sent
     let (sent_token, side): (String, Option<usize>) = if toks.is_empty() || (adversarial && s.chance(1, 6)) {
         // an outsider token (or any token when the pair has none)
@@ -533,7 +581,7 @@ pub fn gen_swap_hook(w: &World, s: &mut Src, prof: &Profile) -> Step {
         (match &pr.infos[sd] { AssetInfo::Token { contract_addr } => contract_addr.clone(), _ => unreachable!() }, Some(sd))
     };
     let amt = match side {
-        Some(sd) => offer_amount(w, s, prof, p, sd, &actor),
+        Some(sd) => offer_amount(w, s, prof, p, sd, &payer),
         None => amount(s, 1 << 40),
     };
     let mut offer = Asset { info: AssetInfo::Token { contract_addr: sent_token.clone() }, amount: Uint128::new(amt) };
@@ -552,14 +600,14 @@ pub fn gen_swap_hook(w: &World, s: &mut Src, prof: &Profile) -> Step {
             _ => offer.amount = Uint128::new(s.bits_u128(100)),
         }
     }
-    let to = swap_receiver(w, s);
+    let to = swap_receiver(w, s, p);
     let (belief_price, max_spread) = guard_params(s);
     let hook = PairHook::Swap { offer_asset: offer, belief_price, max_spread, to };
-    Step {
-        sender: actor,
-        call: Call::Cw20 { token: sent_token, msg: Cw20ExecuteMsg::Send { contract: pr.addr.to_string(), amount: Uint128::new(amt), msg: to_binary(&hook).unwrap() } },
-        funds: vec![],
-    }
+    let msg = match owner {
+        Some(owner) => Cw20ExecuteMsg::SendFrom { owner, contract: pr.addr.to_string(), amount: Uint128::new(amt), msg: to_binary(&hook).unwrap() },
+        None => Cw20ExecuteMsg::Send { contract: pr.addr.to_string(), amount: Uint128::new(amt), msg: to_binary(&hook).unwrap() },
+    };
+    Step { sender: actor, call: Call::Cw20 { token: sent_token, msg }, funds: vec![] }
 }
 
 pub fn gen_donate(w: &World, s: &mut Src, prof: &Profile) -> Step {
@@ -594,7 +642,13 @@ pub fn gen_donate_lp(w: &World, s: &mut Src, _prof: &Profile) -> Step {
         // pair operation, which only raises the value of everybody else's share
         return Step { sender: holder.to_string(), call: Call::Cw20 { token: pr.lp.to_string(), msg: Cw20ExecuteMsg::Burn { amount: Uint128::new(amt) } }, funds: vec![] };
     }
-    let to = if s.bool() { pr.addr.to_string() } else { who(w, s) };
+    // (the recipient is the pair, an account, or - 1 time in 8 - a CONTRACT that is no cw20 receiver: the
+    // forwarding proxy or the factory; a contract is a holder like any other)
+    let to = match s.weighted(&[8, 7, 1]) {
+        0 => pr.addr.to_string(),
+        1 => who(w, s),
+        _ => if s.bool() { w.proxy.to_string() } else { w.factory.to_string() },
+    };
     Step { sender: holder.to_string(), call: Call::Cw20 { token: pr.lp.to_string(), msg: Cw20ExecuteMsg::Transfer { recipient: to, amount: Uint128::new(amt) } }, funds: vec![] }
 }
 
@@ -657,10 +711,11 @@ pub fn gen_route(w: &World, s: &mut Src, prof: &Profile) -> Step {
     let hops = gen_route_ops(w, s, distinct);
     let actor = w.actors[s.idx(w.actors.len())].to_string();
     let amt = offer_amount(w, s, prof, hops[0].0, hops[0].1, &actor).max(1);
-    let minimum = match s.weighted(&[5, 2, 1]) {
+    let minimum = match s.weighted(&[10, 4, 2, 1]) {
         0 => None,
         1 => Some(s.bits_u128(40)),
-        _ => Some(0),
+        2 => Some(0),
+        _ => Some(if s.bool() { u128::MAX - s.below(2) as u128 } else { (1u128 << 127) + s.bits_u128(20) }),
     };
     let to = if s.chance(2, 5) { Some(who(w, s)) } else { None };
     let mut st = route_step(w, &actor, &hops, amt, minimum, to);
@@ -1170,7 +1225,14 @@ pub fn special_routes(w: &World, s: &mut Src, prof: &Profile, gs: &mut GenState,
             2 => Some(d),
             3 => Some(d.saturating_add(1)),
             4 => Some(d.saturating_mul(2)),
-            5 => Some(s.bits_u128(100)),
+            // a bound of any width up to the full 128 bits, or one of the largest values (a bound nobody can
+            // meet must still be a bound)
+            5 => Some(match s.below(4) {
+                0 => s.bits_u128(100),
+                1 => s.bits_u128(128),
+                2 => u128::MAX - s.below(3) as u128,
+                _ => (1u128 << 127) + s.below(3) as u128 - 1,
+            }),
             _ => None,
         },
         None => if s.bool() { Some(s.bits_u128(40)) } else { None },
